@@ -137,9 +137,13 @@ def run(rep: core.Report):
     _r19h(rep)
     _r19k(rep)
     _r19l(rep)
+    _r19m(rep)
     from rules import shared_bcast
 
     shared_bcast.run(rep, "R19i", ["phonopy/phonon/thermal_displacement.py", "phonopy/phonon/random_displacements.py"])
+    from rules import shared_freshwrite
+
+    shared_freshwrite.run(rep, "R19n", ["phonopy/phonon/thermal_displacement.py", "phonopy/phonon/random_displacements.py", "phonopy/harmonic/dynmat_to_fc.py"], 2)
     _r19f(rep)
     _r19g(rep)
     # R19c
@@ -228,6 +232,22 @@ def run(rep: core.Report):
                  f"the two classes of commensurate points are not treated with real / complex phases respectively ({'; '.join(bad) or 'loops over ' + str(sorted(loops))})", line=prep.lineno)
     part = [s for s in ast.walk(core.find_def(RD, "RandomDisplacements._setup_sampling_qpoints")) if isinstance(s, ast.Assign) and "categorize_commensurate_points" in core.src(s.value)]
     rep.instance("R19c", RD, "RandomDisplacements._setup_sampling_qpoints", core.src(part[0]) if part else "<vanished>", len(part) == 1 and core.src(part[0].targets[0]) == "(self._ii, self._ij)", "the ii/ij partition is not computed once by categorize_commensurate_points", line=part[0].lineno if part else 0)
+
+
+def _r19m(rep):
+    """D-type -> C-type eigenvectors at the q = -q + G points: the phase of atom kappa multiplies the ROWS of kappa."""
+    from engine import frames
+    from engine.frames import A as ATOM, L as LAT, U as UNK
+
+    rep.rule("R19m", "eigenvectors handed to the inverse transform: at the q = -q + G points the real D-type eigenvectors are turned into C-type ones by the phase exp(-2 pi i r_kappa.q) of the atom a component belongs to, i.e. the phase vector (one entry per component) meets the component axis (rows) of the eigenvector matrix, not the band axis (axis typing; a phase per column cancels in E diag(w) E^H and leaves the D-type matrix)", 1)
+    rel = "phonopy/phonon/random_displacements.py"
+    fn = core.find_def(rel, "RandomDisplacements._collect_eigensolutions")
+    ty = frames.Typer(fn, seeds={"self._comm_points[self._ii]": (UNK, LAT("x", "-")), "self._ppos": (ATOM, LAT("x", "+")), "self._eigvecs_ii": (UNK, ATOM, LAT("bnd", "-"))}, params={}, call_sigs={}, where=f"{rel}::RandomDisplacements._collect_eigensolutions")
+    problems = ty.run()
+    if not problems and ty.n_typed < 2:
+        raise AnalysisError(f"R19m: only {ty.n_typed} product(s) typed in _collect_eigensolutions (phase = exp(-2 pi i r.q) and phase x eigenvectors expected)")
+    rep.instance("R19m", rel, "RandomDisplacements._collect_eigensolutions", f"{ty.n_typed} products typed: r.q per atom, phase x eigenvector rows", not problems,
+                 (problems[0].message if problems else "") + ": the atomic phases multiply the band axis (columns) of the eigenvector matrices; the matrices rebuilt from these eigen-solutions are the D-type ones and the inverse transform, which expects C-type phases, does not return the original force constants for cells with more than one atom", line=getattr(problems[0].node, "lineno", fn.lineno) if problems else fn.lineno)
 
 
 def _r19l(rep):
@@ -544,6 +564,8 @@ def selftest():
     V = []
     b = lambda name, file, old, new, rule, expect="", **kw: V.append(dict(name=name, kind="break", file=file, old=old, new=new, rule=rule, expect=expect, **kw))
     n = lambda name, file, old, new, **kw: V.append(dict(name=name, kind="neutral", file=file, old=old, new=new, **kw))
+    b("atomic phases broadcast over the band axis", RD, "        eigvecs = []\n        # Transform eigenvectors of D-type to those of C-type\n        for q, eigvec in zip(qpoints, self._eigvecs_ii):\n            Vd = np.repeat(np.exp(-2j * np.pi * np.dot(self._ppos, q)), 3)\n            eigvecs.append((Vd * eigvec.T).T)\n", "        Vd = np.repeat(np.exp(-2j * np.pi * np.dot(qpoints, self._ppos.T)), 3, axis=1)\n        eigvecs = Vd[:, None, :] * np.array(self._eigvecs_ii)\n", "R19m", "_collect_eigensolutions")
+    n("atomic phases broadcast over the component axis", RD, "        eigvecs = []\n        # Transform eigenvectors of D-type to those of C-type\n        for q, eigvec in zip(qpoints, self._eigvecs_ii):\n            Vd = np.repeat(np.exp(-2j * np.pi * np.dot(self._ppos, q)), 3)\n            eigvecs.append((Vd * eigvec.T).T)\n", "        Vd = np.repeat(np.exp(-2j * np.pi * np.dot(qpoints, self._ppos.T)), 3, axis=1)\n        eigvecs = Vd[:, :, None] * np.array(self._eigvecs_ii)\n")
     D2F = "phonopy/harmonic/dynmat_to_fc.py"
     b("batched reassembly with the conjugate on the left factor", D2F, "        dm = []\n        for eigvals, eigvecs in zip(eigenvalues, eigenvectors):\n            dm.append(np.dot(np.dot(eigvecs, np.diag(eigvals)), eigvecs.T.conj()))\n        self.dynamical_matrices = dm\n", "        eigvals = np.asarray(eigenvalues)\n        eigvecs = np.asarray(eigenvectors)\n        self.dynamical_matrices = np.matmul(\n            eigvecs.conj() * eigvals[:, None, :], eigvecs.transpose(0, 2, 1)\n        )\n", "R19l", "create_dynamical_matrices")
     n("batched reassembly, conjugate on the right factor", D2F, "        dm = []\n        for eigvals, eigvecs in zip(eigenvalues, eigenvectors):\n            dm.append(np.dot(np.dot(eigvecs, np.diag(eigvals)), eigvecs.T.conj()))\n        self.dynamical_matrices = dm\n", "        eigvals = np.asarray(eigenvalues)\n        eigvecs = np.asarray(eigenvectors)\n        self.dynamical_matrices = np.matmul(\n            eigvecs * eigvals[:, None, :], eigvecs.conj().transpose(0, 2, 1)\n        )\n")
